@@ -4,7 +4,7 @@
 # with the change and pass without it).  Writes seeded/<seed>/confirm.json.  Removes every worktree.
 cd /verif
 SEEDS=${@:-$(ls seeded)}
-PRI=/tmp/confirm-pristine
+export PRI=/tmp/confirm-pristine
 git -C /repo worktree remove --force $PRI 2>/dev/null; rm -rf $PRI
 git -C /repo worktree add --detach $PRI HEAD >/dev/null 2>&1
 ( cd $PRI && cmake -G Ninja -B _build -S . >/dev/null 2>&1 && cmake --build _build >/dev/null 2>&1 )
@@ -30,6 +30,6 @@ one() {
   cat seeded/$s/confirm.json
 }
 export -f one
-printf '%s\n' $SEEDS | xargs -P 5 -I{} bash -c 'one {}'
+printf '%s\n' $SEEDS | xargs -P 3 -I{} bash -c 'one {}'
 git -C /repo worktree remove --force $PRI 2>/dev/null; rm -rf $PRI
 git -C /repo worktree prune
